@@ -357,8 +357,18 @@ def natural(validator, v):
     return True
 
 
+def fresh(x):
+    """A copy without shared sub-objects (generated values may reuse one {} or [] object in several places, which a config
+    file cannot - short of YAML anchors, which are not part of the domain - and which a replay from JSON does not either)."""
+    if isinstance(x, dict):
+        return {k: fresh(v) for k, v in x.items()}
+    if isinstance(x, list):
+        return [fresh(v) for v in x]
+    return x
+
+
 def check_sections(case):
-    path, source = case["section"], case["source"]
+    path, source = case["section"], fresh(case["source"])
     cv = rig().machine.config_validator
     spec = spec_of(path)
     before = copy.deepcopy(spec)
@@ -571,7 +581,7 @@ def check_synthetic(case):
     path = "_mode_settings:" + name
     spec = spec_of(path)
     before = copy.deepcopy(spec)
-    src = {"v": copy.deepcopy(case["value"])}
+    src = {"v": fresh(case["value"])}
     classes = ["t:" + split_validator(case["validator"])[0], case["container"]]
     _, param = split_validator(case["validator"])
     if param:
